@@ -27,7 +27,8 @@ GIT_UNTRACKED = "??"
 
 def _line_var_and_fields(ctx, fn) -> T.Tuple[str, T.Dict[str, ast.AST], ast.AST, T.List[ast.AST]]:
     """Locate: the per-line variable, the expressions for (status, path), the returned element, the filter tests."""
-    rets = [n for n in ast.walk(fn.node) if isinstance(n, ast.Return) and n.value is not None]
+    from sa.model import walk_no_nested
+    rets = [n for n in walk_no_nested(fn.node) if isinstance(n, ast.Return) and n.value is not None]
     ctx.require(len(rets) == 1, "VCSAPI.status has several return statements (shape not enumerated)")
     ret = None
     if isinstance(rets[0].value, ast.Name):
@@ -72,7 +73,7 @@ def _line_var_and_fields(ctx, fn) -> T.Tuple[str, T.Dict[str, ast.AST], ast.AST,
     ctx.check("R3", not stripped, "VCSAPI.status: the command output is split into lines without stripping its leading whitespace",
               "vcs.VCSAPI.status: the whole status output is left-stripped (the first line loses its blank index column: ' M README.md' is parsed one column off)",
               "`.strip()` / `.lstrip()` on the output of self('status') before splitlines()", loc=fn.loc(), witness={"output": " M README.md\n?? x", "first line after strip": "M README.md"})
-    return line, fields, ret.elt, list(gen.ifs)
+    return line, fields, ret.elt, [shapes.inline_simple_calls(ctx.prog, fn, t) for t in gen.ifs]
 
 
 def _classify_extraction(expr: ast.AST, line: str, fields: T.Dict[str, ast.AST], depth: int = 0) -> T.Dict[str, T.Any]:
@@ -115,44 +116,94 @@ def run(ctx) -> None:
     cfg = cfgs.get(upd.fq)
     neff = shapes.node_effects_lazy(prog, effects, cfg, cfgs.types(upd.fq))
     assert_nodes = [cfg.node_containing(c) for c in shapes.find_calls(prog, upd, "vcs.assert_not_dirty")]
-    ctx.floor("R1", "assert_not_dirty call sites in cli._update", len(assert_nodes), 1)
-    write_nodes = [nid for nid, e in neff.items() if "FS_WRITE" in e and nid not in assert_nodes
-                   and not any(k.startswith("VCS_MUTATE") for k in e)]
-    commit_nodes = [nid for nid, e in neff.items() if any(k.startswith("VCS_MUTATE") for k in e)]
-    ctx.floor("R1", "rewrite nodes in cli._update", len(write_nodes), 1)
-    ctx.floor("R1", "commit nodes in cli._update", len(commit_nodes), 1)
-    pc_cut = PathCond(cfg, blocked_nodes=assert_nodes)
-    for m in commit_nodes:
-        f = pc_cut.reach(m)
-        ctx.check("R1", f.is_false(),
-                  f"cli._update: commit step `{cfg.nodes[m].text()[:40]}` infeasible without passing assert_not_dirty",
-                  "cli._update: the commit step is reachable without the dirty check",
-                  f"with the assert_not_dirty call removed from the graph `{cfg.nodes[m].text()}` is still reached when {f.to_dnf()}",
-                  loc=upd.loc(cfg.nodes[m].ast), witness=f.models(1))
-    for w in write_nodes:
-        for a in assert_nodes:
-            after = a in cfg.reachable(w)
-            ctx.check("R1", not after, f"cli._update: dirty check is never executed after the rewrite `{cfg.nodes[w].text()[:40]}`",
-                      "cli._update: dirty check runs after files were rewritten",
-                      f"`{cfg.nodes[a].text()}` is reachable from `{cfg.nodes[w].text()}`", loc=upd.loc(cfg.nodes[a].ast))
-        # when a commit will follow, the write must be preceded by the check: cut graph again, restricted to
-        # valuations under which the commit is reached afterwards
-        pc_full = PathCond(cfg)
+    root_cmd = "cli.update"
+    reach_cmd = effects.reachable_functions([root_cmd])
+    all_assert = [(fq, c) for fq in sorted(reach_cmd) for c in shapes.find_calls(prog, prog.function(fq), "vcs.assert_not_dirty")]
+    ctx.observe(f"assert_not_dirty call sites reachable from cli.update: {[fq for fq, _ in all_assert]}")
+    if not all_assert:
+        ctx.bad("R1", "cli.update: the dirty check is never called", "no call of vcs.assert_not_dirty is reachable from `bumpver update`: "
+                "a dirty working tree is rewritten and committed", loc=upd.loc(), what="cli.update: dirty check is called")
+    elif assert_nodes:
+        write_nodes = [nid for nid, e in neff.items() if "FS_WRITE" in e and nid not in assert_nodes
+                       and not any(k.startswith("VCS_MUTATE") for k in e)]
+        commit_nodes = [nid for nid, e in neff.items() if any(k.startswith("VCS_MUTATE") for k in e)]
+        ctx.floor("R1", "rewrite nodes in cli._update", len(write_nodes), 1)
+        ctx.floor("R1", "commit nodes in cli._update", len(commit_nodes), 1)
+        pc_cut = PathCond(cfg, blocked_nodes=assert_nodes)
         for m in commit_nodes:
-            will_commit = pc_full.reach(m)
-            f = pc_cut.reach(w) & will_commit
-            # atoms assigned between w and m are already quantified away by the dataflow
+            f = pc_cut.reach(m)
             ctx.check("R1", f.is_false(),
-                      f"cli._update: rewrite `{cfg.nodes[w].text()[:40]}` is preceded by the dirty check whenever a commit follows",
-                      "cli._update: files are rewritten without a dirty check although a commit follows",
-                      f"`{cfg.nodes[w].text()}` reached without assert_not_dirty when {f.to_dnf()}", loc=upd.loc(cfg.nodes[w].ast))
+                      f"cli._update: commit step `{cfg.nodes[m].text()[:40]}` infeasible without passing assert_not_dirty",
+                      "cli._update: the commit step is reachable without the dirty check",
+                      f"with the assert_not_dirty call removed from the graph `{cfg.nodes[m].text()}` is still reached when {f.to_dnf()}",
+                      loc=upd.loc(cfg.nodes[m].ast), witness=f.models(1))
+        for w in write_nodes:
+            for a in assert_nodes:
+                after = a in cfg.reachable(w)
+                ctx.check("R1", not after, f"cli._update: dirty check is never executed after the rewrite `{cfg.nodes[w].text()[:40]}`",
+                          "cli._update: dirty check runs after files were rewritten",
+                          f"`{cfg.nodes[a].text()}` is reachable from `{cfg.nodes[w].text()}`", loc=upd.loc(cfg.nodes[a].ast))
+            # when a commit will follow, the write must be preceded by the check: cut graph again, restricted to
+            # valuations under which the commit is reached afterwards
+            pc_full = PathCond(cfg)
+            for m in commit_nodes:
+                will_commit = pc_full.reach(m)
+                f = pc_cut.reach(w) & will_commit
+                # atoms assigned between w and m are already quantified away by the dataflow
+                ctx.check("R1", f.is_false(),
+                          f"cli._update: rewrite `{cfg.nodes[w].text()[:40]}` is preceded by the dirty check whenever a commit follows",
+                          "cli._update: files are rewritten without a dirty check although a commit follows",
+                          f"`{cfg.nodes[w].text()}` reached without assert_not_dirty when {f.to_dnf()}", loc=upd.loc(cfg.nodes[w].ast))
+    else:
+        # the check lives outside _update: decide on interprocedural path conditions in the vocabulary of cli.update
+        ip = ctx.interproc(())
+        ca = BF.false()
+        for fq, c in all_assert:
+            ca = ca | ip.site_condition(prog.function(fq), c, root_cmd)
+        cc = BF.false()
+        n_commit = 0
+        for fq in sorted(reach_cmd):
+            for st in effects.sites.get(fq, []):
+                if st.effect.startswith("VCS_MUTATE"):
+                    cc = cc | ip.site_condition(st.fn, st.node, root_cmd)
+                    n_commit += 1
+        ctx.floor("R1", "VCS-mutating sites reachable from cli.update", n_commit, 3)
+        ca, cc = ca.drop_unused(), cc.drop_unused()
+        gap = cc & ~ca
+        ctx.check("R1", gap.is_false(), f"cli.update: whenever a VCS step runs the dirty check was called  [check: {ca.to_dnf(4)}; commit: {cc.to_dnf(4)}]",
+                  "cli.update: the commit step runs under conditions under which the dirty check is not called",
+                  f"VCS steps run when {cc.to_dnf(6)}; assert_not_dirty is called only when {ca.to_dnf(6)}; uncovered: {gap.to_dnf(6)}",
+                  loc=prog.function(all_assert[0][0]).loc(all_assert[0][1]), witness=gap.models(1))
+        rfn = prog.function(root_cmd)
+        rcfg = cfgs.get(root_cmd)
+        rneff = shapes.node_effects_lazy(prog, effects, rcfg, cfgs.types(root_cmd))
+        a_nodes, w_nodes = [], []
+        for n in rcfg.nodes:
+            calls_here = [c for c in ast.walk(n.ast) if isinstance(c, ast.Call)] if n.ast is not None and n.kind in ("stmt", "test") else []
+            for c in calls_here:
+                t = prog.resolve_call(rfn, c, cfgs.types(root_cmd), count=False)
+                if t.fn is not None and (t.fn.fq == "vcs.assert_not_dirty" or shapes.calls_transitively(prog, effects, t.fn.fq, "vcs.assert_not_dirty")):
+                    a_nodes.append(n.id)
+            if "FS_WRITE" in rneff.get(n.id, {}) and any(k.startswith("VCS_MUTATE") for k in rneff.get(n.id, {})):
+                w_nodes.append(n.id)
+        ctx.require(a_nodes and w_nodes, "cli.update: dirty check / update nodes not found in the command's own flow graph")
+        for w in w_nodes:
+            for a in a_nodes:
+                ctx.require(a != w, "cli.update: dirty check and rewrite are behind the same call (shape not enumerated)")
+                ctx.check("R1", a not in rcfg.reachable(w),
+                          "cli.update: dirty check is never executed after the rewrite", "cli.update: dirty check runs after files were rewritten",
+                          f"`{rcfg.nodes[a].text()[:60]}` is reachable from `{rcfg.nodes[w].text()[:60]}`", loc=rfn.loc(rcfg.nodes[a].ast))
     # wiring of the arguments
     FILESET = ("set(cfg.file_patterns.keys())", "set(cfg.file_patterns)")
     # the configured paths are compared with the paths git prints: they must be canonical relative paths
     from checks.c03 import canonical_keys_rule
     canonical_keys_rule(ctx, "R1")
-    shapes.check_passthrough(ctx, "R1", "cli._update", "vcs.assert_not_dirty",
-                             {"vcs_api": "vcs_api", "filepaths": FILESET, "allow_dirty": "allow_dirty"})
+    if assert_nodes:
+        shapes.check_passthrough(ctx, "R1", "cli._update", "vcs.assert_not_dirty",
+                                 {"vcs_api": "vcs_api", "filepaths": FILESET, "allow_dirty": "allow_dirty"})
+    else:
+        for fq, _c in all_assert:
+            shapes.check_passthrough(ctx, "R1", fq, "vcs.assert_not_dirty", {"filepaths": FILESET, "allow_dirty": "allow_dirty"})
     shapes.check_passthrough(ctx, "R1", "cli._try_update", "cli._update", {"allow_dirty": "allow_dirty", "cfg": "cfg"})
     shapes.check_passthrough(ctx, "R1", "cli.update", "cli._try_update", {"allow_dirty": "allow_dirty", "cfg": "cfg"})
 
@@ -276,6 +327,21 @@ def run(ctx) -> None:
                     if c.value.strip() != GIT_UNTRACKED:
                         return f"status=={c.value!r}", isinstance(op, ast.Eq)
                     return "U", isinstance(op, ast.Eq)
+        # `any(x == r for r in required)` is membership spelled out
+        if isinstance(leaf, ast.Call) and unparse(leaf.func) == "any" and len(leaf.args) == 1 and isinstance(leaf.args[0], ast.GeneratorExp) \
+                and len(leaf.args[0].generators) == 1 and unparse(leaf.args[0].generators[0].iter) == req and not leaf.args[0].generators[0].ifs:
+            g = leaf.args[0].generators[0]
+            cs = shapes.compare_shape(leaf.args[0].elt)
+            if cs and cs[0] == "==" and isinstance(g.target, ast.Name) and g.target.id in (unparse(cs[1]), unparse(cs[2])):
+                other = cs[2] if unparse(cs[1]) == g.target.id else cs[1]
+                return classify(ast.Compare(left=other, ops=[ast.In()], comparators=[ast.Name(id=req, ctx=ast.Load())]))
+        if any(isinstance(x, ast.Name) and x.id == req for x in ast.walk(leaf)):
+            ctx.bad("R4", "vcs.VCSAPI.status: an untracked entry counts as a pattern file without being equal to one",
+                    f"`{unparse(leaf)[:90]}` is not exact membership in `{req}`: an untracked file whose name merely resembles a configured path is "
+                    f"reported as dirty pattern file (update aborts under --allow-dirty), or a real one is missed",
+                    loc=s_fn.loc(leaf) if hasattr(leaf, "lineno") else s_fn.loc(), witness={"status line": "?? README", "required_files": ["README.md"]},
+                    what="VCSAPI.status: pattern-file test is exact membership")
+            return "R~", True
         raise AnalysisError(f"C11/R4: filter leaf not enumerated: `{unparse(leaf)}`")
 
     keep = BF.true()
